@@ -474,6 +474,19 @@ func featureCases() []caseRec {
 					add("/c1/c2/l", l)
 					add("/c1/m", c1)
 					out = append(out, r)
+					// the same case with the features spelled with every character an identifier may hold
+					// (a dot, a dash, an underscore in front, upper case, digits): names are names
+					if i%4 != 0 || sn == shapeNames[0] {
+						sp := strings.NewReplacer("f1", "rel1.2", "f2", "F-2_x", "f3", "_f.3-")
+						r2 := caseRec{Kind: r.Kind, Name: r.Name + "#spelled", Mods: map[string]string{}, Expect: r.Expect, Present: r.Present, Absent: r.Absent, Feats: []string{}}
+						for k, v := range r.Mods {
+							r2.Mods[k] = sp.Replace(v)
+						}
+						for _, f := range r.Feats {
+							r2.Feats = append(r2.Feats, sp.Replace(f))
+						}
+						out = append(out, r2)
+					}
 				}
 			}
 		}
